@@ -107,6 +107,27 @@ func genLimitCase(rng *rand.Rand, L int64, thorough bool) *ReadCase {
 	return c
 }
 
+// genBigLimitCase: one compressed message of L+1 zero bytes (a few KB on the wire) or, for i odd and L small enough,
+// an uncompressed one, under the large limit L: it must fail with 1009 after at most L+1 bytes.
+func genBigLimitCase(rng *rand.Rand, L int64, i int) *ReadCase {
+	client := rng.Intn(2) == 0
+	n := int(L) + 1
+	plain := make([]byte, n)
+	lim := L
+	var f RawFrame
+	flate := i%2 == 0 || L > 4<<20
+	if flate {
+		d := newRawDeflater(false, 6)
+		f = RawFrame{Fin: true, Rsv1: true, Op: 2, Masked: !client, Key: [4]byte{9, 8, 7, 6}, Payload: d.message(plain, false)}
+	} else {
+		f = RawFrame{Fin: true, Op: 2, Masked: !client, Key: [4]byte{9, 8, 7, 6}, Payload: plain}
+	}
+	c := &ReadCase{Desc: fmt.Sprintf("one message of %d bytes under the large limit %d (compressed: %v)", n, L, flate), Client: client, Flate: true, Limit: &lim,
+		Term: "eof", Bufs: []int{65536}, Stream: hex.EncodeToString(f.Encode()), NoModel: true}
+	c.Exp = Expect{Why: c.Desc, Msgs: []ExpMsg{}, Pongs: []string{}, InMsg: true, PartialOf: hx(plain), MaxPartial: int(L) + 1, WantClose: 1009}
+	return c
+}
+
 // memoryProbe receives a frame that declares `declared` bytes (or a compression bomb) under a
 // small limit and reports the heap growth in bytes.
 func memoryProbe(kind string) (delta int64, res string) {
@@ -178,6 +199,19 @@ func runC08(ctx *runCtx) {
 	for _, L := range limits {
 		for i := 0; i < per; i++ {
 			cases = append(cases, genLimitCase(rng, L, ctx.thorough()))
+		}
+	}
+	// large limits (the Close 1009 must still reach the peer: its reason text grows with the limit)
+	bigPer := 3
+	if ctx.thorough() {
+		bigPer = 12
+	}
+	for _, L := range []int64{999999, 1000000, 1 << 20, 12345678} {
+		for i := 0; i < bigPer; i++ {
+			if L > 4<<20 && i > 0 {
+				break // one over-limit message of that size is enough
+			}
+			cases = append(cases, genBigLimitCase(rng, L, i))
 		}
 	}
 	// limit change between messages: first message under limit A, then limit B applies to the second
